@@ -778,11 +778,21 @@ pub fn run_check(engine: &'static dyn Engine, opts: &Opts) -> CheckOutcome {
     let mut new_violations = 0u64;
     let mut known_hits = 0u64;
     let mut seen_inv: Vec<String> = Vec::new();
+    let mut soft_tries = 0u32;
     for (run, v, t) in &merged.violations {
         if seen_inv.contains(&v.invariant) {
             continue;
         }
-        seen_inv.push(v.invariant.clone());
+        let soft = v.invariant.ends_with(".slow");
+        if soft {
+            // timing reports: keep trying candidates until one reproduces alone (at most 12)
+            soft_tries += 1;
+            if soft_tries > 12 {
+                continue;
+            }
+        } else {
+            seen_inv.push(v.invariant.clone());
+        }
         if seen_inv.len() > 4 {
             break;
         }
@@ -813,6 +823,9 @@ pub fn run_check(engine: &'static dyn Engine, opts: &Opts) -> CheckOutcome {
         };
         if !confirmed {
             continue;
+        }
+        if soft {
+            seen_inv.push(v.invariant.clone());
         }
         let (min, tests) = match minimise(engine, t, &v.invariant) {
             Ok(x) => x,
